@@ -341,7 +341,9 @@ func (p *ProjectRunner) getDoneOrRunningProcess(name string) *Process {
 
 func (p *ProjectRunner) removeRunningProcess(process *Process) {
 	p.runProcMutex.Lock()
-	delete(p.runningProcesses, process.getName())
+	if p.runningProcesses[process.getName()] == process {
+		delete(p.runningProcesses, process.getName())
+	}
 	verifTrace(process, "Unreg")
 	p.runProcMutex.Unlock()
 }
